@@ -132,8 +132,12 @@ func newXfer(kind string) (x xfer) {
 	return x
 }
 
+// xferStrategy is the eviction strategy the transfer caches are configured with (set for the duration of a cell):
+// LRU / LFU keep a serve counter next to every entry, which Walk and Dump have to step around.
+var xferStrategy cache.EvictionStrategy
+
 func newXferRaw(kind string) xfer {
-	cfg := cache.Config{Name: "x", TimeToLive: cache.UnlimitedTTL, ExpirationJitter: -1}
+	cfg := cache.Config{Name: "x", TimeToLive: cache.UnlimitedTTL, ExpirationJitter: -1, EvictionStrategy: xferStrategy}
 
 	switch kind {
 	case "SM":
@@ -248,10 +252,11 @@ func keysForLens(lens []int) ([][]byte, bool) {
 }
 
 type c13Cell struct {
-	Src  string `json:"src"`
-	Dst  string `json:"dst"`
-	Lens []int  `json:"lens"` // key lengths by dump position
-	Hops int    `json:"hops"`
+	Src   string `json:"src"`
+	Dst   string `json:"dst"`
+	Lens  []int  `json:"lens"` // key lengths by dump position
+	Hops  int    `json:"hops"`
+	Strat int    `json:"strat,omitempty"` // eviction strategy of all caches involved (0 = default, most expired)
 }
 
 func (c c13Cell) id() string { js, _ := json.Marshal(c); return string(js) }
@@ -307,6 +312,21 @@ func c13Cells(tier string) []Cell {
 		// relays through three instances and one large cache
 		cells = append(cells, Cell{ID: c13Cell{Src: p[0], Dst: p[1], Lens: []int{9, 0, 70}, Hops: 3}.id()})
 		cells = append(cells, Cell{ID: c13Cell{Src: p[0], Dst: p[1], Lens: []int{-300}, Hops: 2}.id()})
+	}
+
+	// caches configured with LRU / LFU eviction (appended: the indices of the cells above stay what they were)
+	for _, p := range c13Pairs {
+		for strat := 1; strat <= 2; strat++ {
+			for _, lens := range lenArrangements(2) {
+				if p[0] == "SY" && !sort.IntsAreSorted(lens) {
+					continue
+				}
+
+				cells = append(cells, Cell{ID: c13Cell{Src: p[0], Dst: p[1], Lens: lens, Hops: 1, Strat: strat}.id()})
+			}
+
+			cells = append(cells, Cell{ID: c13Cell{Src: p[0], Dst: p[1], Lens: []int{9, 0, 70}, Hops: 3, Strat: strat}.id()})
+		}
 	}
 
 	return cells
@@ -479,6 +499,9 @@ func c13Run(c Cell, env *Env) CellResult {
 
 	var cc c13Cell
 	_ = json.Unmarshal([]byte(c.ID), &cc)
+
+	xferStrategy = cache.EvictionStrategy(cc.Strat)
+	defer func() { xferStrategy = 0 }()
 
 	res := CellResult{Exhaustive: true, Outcomes: map[string]int{}}
 	values := xferValues(cc.Src)
